@@ -2551,6 +2551,11 @@ lyd_merge_sibling_r(struct lyd_node **first_trg, struct lyd_node *parent_trg,
                 /* keep the exact same flags */
                 match_trg->flags = sibling_src->flags;
             }
+        } else if ((match_trg->schema->nodetype == LYS_LEAFLIST) && (match_trg->flags & LYD_DEFAULT) &&
+                !(sibling_src->flags & LYD_DEFAULT)) {
+            /* explicit instance replaces the default one with the same value */
+            match_trg->flags &= ~LYD_DEFAULT;
+            lyd_np_cont_dflt_del(lyd_parent(match_trg));
         } else if ((match_trg->schema->nodetype & LYS_ANYDATA) && lyd_compare_single(sibling_src, match_trg, 0)) {
             /* update value */
             LY_CHECK_RET(lyd_any_copy_value(match_trg, &((struct lyd_node_any *)sibling_src)->value,
